@@ -144,10 +144,11 @@ fn main() {
         pos = end;
     }
     assert!(!fields.is_empty(), "no df! fields found");
-    writeln!(out, "#[macro_export]\nmacro_rules! for_each_df_field {{\n    ($m:ident) => {{\n        $m! {{").unwrap();
+    let mut fout = String::new();
+    writeln!(fout, "macro_rules! for_each_df_field {{\n    ($m:ident) => {{\n        $m! {{").unwrap();
     for (id, dt, it, len, inv) in &fields {
         writeln!(
-            out,
+            fout,
             "            ({}, {}, {}, {}, {}),",
             id,
             dt,
@@ -157,7 +158,8 @@ fn main() {
         )
         .unwrap();
     }
-    writeln!(out, "        }}\n    }};\n}}").unwrap();
+    writeln!(fout, "        }}\n    }};\n}}").unwrap();
+    fs::write(PathBuf::from(env::var("OUT_DIR").unwrap()).join("fields_list.rs"), fout).unwrap();
 
     // ---- features from Cargo.toml ----
     let cargo = fs::read_to_string(format!("{}/Cargo.toml", repo)).expect("Cargo.toml");
